@@ -16,7 +16,7 @@ Proof.
 Qed.
 
 (* the stream context during encoding: bits at and after the cursor are zero, room for n *)
-Definition enc_pre (x : cctx) (n : Z) : Prop :=
+Definition cenc_pre (x : cctx) (n : Z) : Prop :=
   bytes_ok (xs x) /\ 0 <= xi x /\ 0 <= bufZ (xs x) < 2 ^ xi x /\
   xi x + n <= 8 * Z.of_nat (length (xs x)).
 
@@ -238,7 +238,7 @@ Proof. repeat split; reflexivity. Qed.
 (* ---------- BpEndecodeBaseType ---------- *)
 
 Lemma base_enc B E nbits x data :
-  B = E -> 0 <= nbits -> enc_pre x nbits -> bytes_ok data ->
+  B = E -> 0 <= nbits -> cenc_pre x nbits -> bytes_ok data ->
   nbits <= 8 * Z.of_nat (length data) ->
   (B = BE -> 1 <= nbits <= 64 /\ Z.of_nat (length data) = BpBaseTypeStorageSize nbits) ->
   exists s',
